@@ -1081,7 +1081,7 @@ mod highdeg;
 
 fn relations(tier: Tier) -> Vec<Rel> {
     use ark_test_curves::bls12_381::Fr;
-    use vh_core::zoo::{T97, X3_2};
+    use vh_core::zoo::{T97, X3_2, Y3_2};
     let mut out = Vec::new();
     let maxlen = tier.pick(71, 601);
     let tape = 96;
@@ -1104,6 +1104,14 @@ fn relations(tier: Tier) -> Vec<Rel> {
         let cfg = std::sync::Arc::new(Cfg { field: "X3_2", maxlen: 38, two_adicity: X3_2::TWO_ADICITY, max_domain: max_domain::<X3_2>() });
         out.push(Rel::new("mul/X3_2", tier.pick(1500, 30000), tape, move |t, o| mul_rel::<X3_2>(&cfg, t, o)).shrink_iters(1500));
     }
+    // a mixed-radix field with small-subgroup base 5 (2^3 * 5^2): sizes up to 200, among them multiples of 25, where the
+    // radix-q merge passes use more than the first two twiddle powers
+    domain_rels::<Y3_2, MixedRadixEvaluationDomain<Y3_2>>(&mut out, "Y3_2", tier, maxlen, 200, tape);
+    domain_rels::<Y3_2, GeneralEvaluationDomain<Y3_2>>(&mut out, "Y3_2", tier, maxlen, 200, tape);
+    {
+        let cfg = std::sync::Arc::new(Cfg { field: "Y3_2", maxlen: 101, two_adicity: Y3_2::TWO_ADICITY, max_domain: max_domain::<Y3_2>() });
+        out.push(Rel::new("mul/Y3_2", tier.pick(1500, 30000), tape, move |t, o| mul_rel::<Y3_2>(&cfg, t, o)).shrink_iters(1500));
+    }
     // sparse polynomials of very high degree (vanishing polynomials of large domains, x^(2^k) +- ...): the dense model
     // cannot represent them; oracle = BTreeMap<degree, coefficient> and sum c * x^d with Field::pow
     out.push(Rel::new("sparse.highdeg/bls12_381.Fr", tier.pick(1500, 30000), tape, move |t, o| highdeg::highdeg_rel::<Fr>("bls12_381.Fr", t, o)).shrink_iters(1500));
@@ -1121,7 +1129,7 @@ fn relations(tier: Tier) -> Vec<Rel> {
 fn main() {
     vh_core::engine::main(PropSpec {
         id: "C08",
-        rule: "Operands are canonical coefficient vectors (the model) over BLS12-381 Fr and over F_97 (frequent cancellations), 0..=70 coefficients (thorough 600): zero, constants, short, any length; coefficients uniform / edge values with many zeros / very sparse / {0,±1,2}; pairs are independent or correlated (b = -a + low-degree noise, b = a + noise, equal degree with opposite or equal leading coefficient, b = -a/f + noise for the scaled add, b = a, one side zero); sparse operands are built through SparsePolynomial::from_coefficients_vec/slice from distinct degrees with non-zero coefficients in ascending, descending or shuffled order, independent of the dense operand or sharing/negating its leading term, equal to ±a, of higher or lower degree; divisors are non-zero (a = b*q + r constructed, constants, x^n - c, equal degree, few terms); domains are radix-2/general/mixed subgroups and cosets (offset 1, GENERATOR, tape, subgroup element) of size <= 32 (72 on the toy mixed field) with operand lengths < n, = n, n+1, <= 2n, = 2n, > 2n, k*n. Every result is compared coefficient by coefficient with the schoolbook model's canonical vector (so a non-canonical result fails), degree()/is_zero()/evaluate at {0, 1, -1, two tape points} are checked on it, division results also through a = q*b + r and deg r < deg b. Non-trivial: both operands non-zero and (equal degrees or a leading-term cancellation) for the linear relations; both non-zero and not both constant (mul); dividend non-zero of degree >= deg divisor (div); operand non-zero with at least n coefficients (vanishing); both non-zero and longer than the domain or of equal length (eval-domain); at least two coefficients (conv). Added: every owned/borrowed spelling of dense + - * / (owned-owned, owned-ref, ref-owned, ref-ref); FFT multiplication over the toy field F_1657 (two-adicity 3, small subgroup 3^2), where products with 9..72 coefficients are transformed over mixed-radix domains (relation mul/X3_2, operands up to 38 coefficients; products that fit no domain are not multiplied by FFT); sparse polynomials of very high degree (relation sparse.highdeg: 0..7 terms at degrees in 0..200, around 2^a +- 1 for a <= 61, uniform below 2^61; pairs sharing degrees with equal / opposite / fresh coefficients, b = +-a, b = -a/f) through constructors, degree, is_zero, evaluate, + += -= +=(f,.) neg *F, SparsePolynomial::mul, evaluate_over_domain(_by_ref) on cosets of size <= 16, against a BTreeMap<degree, coefficient> model and sum c*x^d with Field::pow; non-trivial there: >= 2 terms and degree >= 2^16. Large operands (relation big: up to 2^14 coefficients over BLS12-381 Fr, 2^15 over Goldilocks; thorough 2^16 / 2^17; lengths 2^k, 2^k +- 1, uniform; second operand independent, -a + noise, equal degree with opposite leading coefficient, short, medium, zero): linear operators, dense with few-term sparse, conversions and evaluate compared exactly with the model; products and quotients exactly when la*lb <= 2^20, otherwise through a(x)b(x) = p(x) and q(x)b(x) + r(x) = a(x) at five points plus degree and canonical-form conditions; mul_by_vanishing_poly exactly, divide_by_vanishing_poly through q*Z + r = a with the length conditions, evaluate_over_domain at 8 elements of a coset of size <= 2^13, interpolate = the remainder. distinct = distinct decoded choice sequences.",
+        rule: "Operands are canonical coefficient vectors (the model) over BLS12-381 Fr and over F_97 (frequent cancellations), 0..=70 coefficients (thorough 600): zero, constants, short, any length; coefficients uniform / edge values with many zeros / very sparse / {0,±1,2}; pairs are independent or correlated (b = -a + low-degree noise, b = a + noise, equal degree with opposite or equal leading coefficient, b = -a/f + noise for the scaled add, b = a, one side zero); sparse operands are built through SparsePolynomial::from_coefficients_vec/slice from distinct degrees with non-zero coefficients in ascending, descending or shuffled order, independent of the dense operand or sharing/negating its leading term, equal to ±a, of higher or lower degree; divisors are non-zero (a = b*q + r constructed, constants, x^n - c, equal degree, few terms); domains are radix-2/general/mixed subgroups and cosets (offset 1, GENERATOR, tape, subgroup element) of size <= 32 (72 on the toy mixed field) with operand lengths < n, = n, n+1, <= 2n, = 2n, > 2n, k*n. Every result is compared coefficient by coefficient with the schoolbook model's canonical vector (so a non-canonical result fails), degree()/is_zero()/evaluate at {0, 1, -1, two tape points} are checked on it, division results also through a = q*b + r and deg r < deg b. Non-trivial: both operands non-zero and (equal degrees or a leading-term cancellation) for the linear relations; both non-zero and not both constant (mul); dividend non-zero of degree >= deg divisor (div); operand non-zero with at least n coefficients (vanishing); both non-zero and longer than the domain or of equal length (eval-domain); at least two coefficients (conv). Added: every owned/borrowed spelling of dense + - * / (owned-owned, owned-ref, ref-owned, ref-ref); FFT multiplication over the toy field F_1657 (two-adicity 3, small subgroup 3^2), where products with 9..72 coefficients are transformed over mixed-radix domains (relation mul/X3_2, operands up to 38 coefficients; likewise mul/Y3_2 and the domain relations over the field with small subgroup 5^2, domains up to size 200 including the multiples of 25; products that fit no domain are not multiplied by FFT); sparse polynomials of very high degree (relation sparse.highdeg: 0..7 terms at degrees in 0..200, around 2^a +- 1 for a <= 61, uniform below 2^61; pairs sharing degrees with equal / opposite / fresh coefficients, b = +-a, b = -a/f) through constructors, degree, is_zero, evaluate, + += -= +=(f,.) neg *F, SparsePolynomial::mul, evaluate_over_domain(_by_ref) on cosets of size <= 16, against a BTreeMap<degree, coefficient> model and sum c*x^d with Field::pow; non-trivial there: >= 2 terms and degree >= 2^16. Large operands (relation big: up to 2^14 coefficients over BLS12-381 Fr, 2^15 over Goldilocks; thorough 2^16 / 2^17; lengths 2^k, 2^k +- 1, uniform; second operand independent, -a + noise, equal degree with opposite leading coefficient, short, medium, zero): linear operators, dense with few-term sparse, conversions and evaluate compared exactly with the model; products and quotients exactly when la*lb <= 2^20, otherwise through a(x)b(x) = p(x) and q(x)b(x) + r(x) = a(x) at five points plus degree and canonical-form conditions; mul_by_vanishing_poly exactly, divide_by_vanishing_poly through q*Z + r = a with the length conditions, evaluate_over_domain at 8 elements of a coset of size <= 2^13, interpolate = the remainder. distinct = distinct decoded choice sequences.",
         assumptions: &[
             "prime-field arithmetic is correct (C01); domain construction and fft/ifft are C07's subject (used here only through evaluate_over_domain/interpolate/FFT multiplication, whose results are compared with the model)",
             "sparse inputs: distinct degrees, non-zero coefficients, any order (the only input shape the constructor documents); dense inputs go through from_coefficients_vec/slice (which strips trailing zeros)",
